@@ -112,7 +112,7 @@ type TC struct {
 	LockMode bool
 	// OnClient, when set, observes every client->TC message (after journaling, outside the lock).
 	OnClient func(s *Session, m message.RpcMessage)
-	inflight sync.WaitGroup
+	inflight int64 // deliveries that have not returned yet
 }
 
 func New(addr string) *TC {
@@ -527,9 +527,9 @@ func (tc *TC) global(xid string) *Global {
 // deliver hands a package to the client like getty's task pool: its own goroutine.
 func (tc *TC) deliver(s *Session, m message.RpcMessage, delay time.Duration, dup int) {
 	for i := 0; i <= dup; i++ {
-		tc.inflight.Add(1)
+		atomic.AddInt64(&tc.inflight, 1)
 		go func() {
-			defer tc.inflight.Done()
+			defer atomic.AddInt64(&tc.inflight, -1)
 			if delay > 0 {
 				time.Sleep(delay)
 			}
@@ -581,9 +581,9 @@ func (tc *TC) RequestWithID(s *Session, id int32, body interface{}, d time.Durat
 	// returns without having written a response, there will be none: no need to wait out d
 	m := message.RpcMessage{ID: id, Type: message.GettyRequestTypeRequestSync, Codec: 1, Body: body}
 	done := make(chan struct{})
-	tc.inflight.Add(1)
+	atomic.AddInt64(&tc.inflight, 1)
 	go func() {
-		defer tc.inflight.Done()
+		defer atomic.AddInt64(&tc.inflight, -1)
 		defer close(done)
 		tc.mu.Lock()
 		tc.log(Event{Dir: "s2c", Session: s.N, ID: m.ID, Type: m.Type, Body: m.Body})
@@ -651,12 +651,14 @@ func (tc *TC) Responses() []message.RpcMessage {
 
 // Quiesce waits until every delivery goroutine has returned (bounded).
 func (tc *TC) Quiesce(d time.Duration) bool {
-	done := make(chan struct{})
-	go func() { tc.inflight.Wait(); close(done) }()
-	select {
-	case <-done:
-		return true
-	case <-time.After(d):
-		return false
+	deadline := time.Now().Add(d)
+	for {
+		if atomic.LoadInt64(&tc.inflight) == 0 {
+			return true
+		}
+		if time.Now().After(deadline) {
+			return false
+		}
+		time.Sleep(200 * time.Microsecond)
 	}
 }
